@@ -988,6 +988,40 @@ fn gen_c05(r: &mut Rng, t: Tier, job: u64) -> Plan {
         return gen_giant_inbound(r, seq);
     }
     let giants_out = if t == Tier::Quick { 24 } else { 600 };
+    if job == giants || job == giants + 1 || (job < giants + giants_out && job % 50 == 7) {
+        // one value of three or four full packets and a bit, handed over in a single write: every
+        // continuation packet takes the next id
+        let k = if job == giants + 1 { 4u64 } else { 3 };
+        let len = (k * 0xFF_FFFF) as u32 + r.below(12) as u32 - if r.coin() { 0 } else { 9 };
+        let unit = RowsUnit {
+            cols: vec![ColSpec {
+                table: Blob::lit(b"t"),
+                name: Blob::lit(b"c"),
+                coltype: 0xfc,
+                flags: 0,
+            }],
+            rows: vec![vec![Cell::Bytes(Blob::Gen {
+                len,
+                salt: r.next() as u32,
+                ascii: false,
+            })]],
+            write_row: r.coin(),
+            last_row_ended: true,
+            close: Close::Finish,
+            contra: None,
+            recover: None,
+        };
+        let mut pg = simple_ok_program();
+        pg.units = vec![Unit::Rows(unit)];
+        pg.end = End::Implicit;
+        let mut p = Plan::basic(vec![Cmd {
+            seq: gen_seq(r, true),
+            kind: CmdKind::Query(Blob::lit(b"one giant value")),
+            act: Act::Program(pg),
+        }]);
+        p.writes = WriteSched::all();
+        return p;
+    }
     if job < giants + giants_out {
         // responses of k*(2^24-1)+d bytes (d = 0 included): continuation and terminating packets
         // must keep counting
